@@ -287,6 +287,11 @@ func checkC08(c *Ctx, r *Report) {
 	r.Rule("serialiser-writes-every-byte", "the serialisers of the two-way layers write every byte of their fixed part, reserved bytes as zero", 20)
 	compareSpec(c, r, specsFor(requestSpecs, "RAKPMessage1"), "wire", nil)
 	compareSpec(c, r, sessionHeaderSpecs, "wire", nil)
+	compareSpec(c, r, v1SerialiserSpecs, "wire", nil)
+	// the other direction of RAKP Message 1: every field read back from the specified bytes, the
+	// user name with the whole length byte
+	r.Rule("two-way-decoder-layouts", "the decoder of RAKP Message 1 reads every field from the specified bytes (the user name: byte 27 bytes from offset 28)", 5)
+	compareSpec(c, r, twoWayDecoderSpecs, "field", nil)
 	// … and no serialiser reserves bytes it does not write (rule shared with C17)
 	checkSerialisersOverwrite(c, r)
 	checkBufferViews(c, r, "buffer-views")
